@@ -114,17 +114,24 @@ theorem master_round (c : Cfg) (s : St) (now : Int) (p : Probe) :
     simp [checkBackendMasterStatus, probeNode, probeOk, shouldDownAfterNoAlive, setMaster, lastOkAfter, hok, hm] <;>
     split_ifs <;> simp_all
 
+/-- The replication check as the replica rounds apply it: skipped while the
+    master is down (or the slice has no master node). -/
+def syncAlive (c : Cfg) (s : St) (conn : Bool) (q : SlaveQ) : Bool :=
+  masterDown c s || checkSlaveSyncStatus conn c.sbm q
+
+theorem syncAlive_noconn (c : Cfg) (s : St) (q : SlaveQ) : syncAlive c s false q = true := by
+  simp [syncAlive, checkSlaveSyncStatus_noconn]
+
 theorem noRecovery_round (c : Cfg) (s : St) (now : Int) (p : Probe) (q : SlaveQ) :
     checkWithNoRecovery c s now p q =
       { s with rep :=
           { lastChecked := lastOkAfter (probeOk c p) now s.rep,
             up := if now - lastOkAfter (probeOk c p) now s.rep ≥ c.downAfter then false
-                  else if masterDown c s then true
-                  else if !checkSlaveSyncStatus (probeOk c p) c.sbm q then false
+                  else if !syncAlive c s (probeOk c p) q then false
                   else (s.rep.up || probeOk c p) } } := by
   obtain ⟨m, ⟨ru, rl⟩, lf, erc, cscc, lr⟩ := s
   cases hok : checkInstanceStatus c.healthSql p <;> cases ru <;>
-    simp [checkWithNoRecovery, probeNode, probeOk, shouldDownAfterNoAlive, setRep, lastOkAfter, hok, masterDown] <;>
+    simp [checkWithNoRecovery, probeNode, probeOk, shouldDownAfterNoAlive, setRep, lastOkAfter, hok, masterDown, syncAlive] <;>
     split_ifs <;> simp_all
 
 theorem hardRecovery_round (c : Cfg) (s : St) (now : Int) (p : Probe) (q : SlaveQ) :
@@ -132,19 +139,17 @@ theorem hardRecovery_round (c : Cfg) (s : St) (now : Int) (p : Probe) (q : Slave
       { s with rep :=
           { lastChecked := lastOkAfter (probeOk c p) now s.rep,
             up := if now - lastOkAfter (probeOk c p) now s.rep ≥ c.downAfter then false
-                  else if masterDown c s then true
-                  else if !checkSlaveSyncStatus (probeOk c p) c.sbm q then false
+                  else if !syncAlive c s (probeOk c p) q then false
                   else if probeOk c p && !s.rep.up then decide (now ≥ s.lastFuse + c.cooling)
                   else s.rep.up } } := by
   obtain ⟨m, ⟨ru, rl⟩, lf, erc, cscc, lr⟩ := s
   cases hok : checkInstanceStatus c.healthSql p <;> cases ru <;>
-    simp [checkWithHardRecovery, probeNode, probeOk, shouldDownAfterNoAlive, setRep, lastOkAfter, hok, masterDown, hardAllowRecovery] <;>
+    simp [checkWithHardRecovery, probeNode, probeOk, shouldDownAfterNoAlive, setRep, lastOkAfter, hok, masterDown, hardAllowRecovery, syncAlive] <;>
     split_ifs <;> simp_all
 
 /-- Does a gradual round reach `AllowRecovery`? -/
 def gradualAsks (c : Cfg) (s : St) (p : Probe) (q : SlaveQ) : Bool :=
-  probeOk c p && !s.rep.up && decide (0 < c.downAfter) && !masterDown c s &&
-    checkSlaveSyncStatus true c.sbm q
+  probeOk c p && !s.rep.up && decide (0 < c.downAfter) && syncAlive c s true q
 
 theorem gradualRecovery_round (c : Cfg) (s : St) (now : Int) (p : Probe) (q : SlaveQ) :
     checkWithGradualRecovery c s now p q =
@@ -152,8 +157,7 @@ theorem gradualRecovery_round (c : Cfg) (s : St) (now : Int) (p : Probe) (q : Sl
         rep :=
           { lastChecked := lastOkAfter (probeOk c p) now s.rep,
             up := if now - lastOkAfter (probeOk c p) now s.rep ≥ c.downAfter then false
-                  else if masterDown c s then s.rep.up
-                  else if !checkSlaveSyncStatus (probeOk c p) c.sbm q then false
+                  else if !syncAlive c s (probeOk c p) q then false
                   else if probeOk c p && !s.rep.up then decide (s.cscc ≤ 0)
                   else s.rep.up },
         cscc := if !probeOk c p && !s.rep.up then penalty s.erc
@@ -162,7 +166,7 @@ theorem gradualRecovery_round (c : Cfg) (s : St) (now : Int) (p : Probe) (q : Sl
   obtain ⟨m, ⟨ru, rl⟩, lf, erc, cscc, lr⟩ := s
   cases hok : checkInstanceStatus c.healthSql p <;> cases ru <;>
     simp [checkWithGradualRecovery, probeNode, probeOk, shouldDownAfterNoAlive, setRep, lastOkAfter, hok, masterDown,
-      gradualAllowRecovery, refreshCoolDownCount, gradualAsks] <;>
+      gradualAllowRecovery, refreshCoolDownCount, gradualAsks, syncAlive] <;>
     split_ifs <;> simp_all <;> omega
 
 /-- TryFuse gets past its guards: strategies installed, connection error, breaker fired. -/
